@@ -4,6 +4,12 @@
 // ---------------------------------------------------------------------------------------------
 verus! {
 
+/// std combinators that vstd has no specification for (their documented behaviour; trusted)
+#[verifier::allow(undeclared_external_trait)]
+pub assume_specification<T, E>[Result::<T, E>::unwrap_or](r: Result<T, E>, d: T) -> (o: T)
+    where E: std::marker::Destruct, T: std::marker::Destruct
+    ensures o == (match r { Ok(v) => v, Err(_) => d });
+
 // ---- shims local to this unit (assumptions; listed in evidence) ----
 pub tracked struct PanicCtx { pub ghost asked: bool, pub ghost value: bool }
 pub struct Thread { pub _p: () }
